@@ -29,6 +29,10 @@ def gen_cases(seed, tier, n):
         c["params"] = {}
         if i % 6 == 5:
             _mixed_last_group(c, random.Random(seed * 104729 + i))
+        if i % 8 == 6:
+            fw.set_quarter_us(c)           # quarter-microsecond resolution (framework.resolution)
+        if i % 7 == 3:
+            tracegen.add_second_process(c, random.Random(seed * 15485863 + i))     # two processes, same thread id
         out.append(c)
     return out
 
@@ -75,16 +79,21 @@ def properly_nested(evs):
 
 
 def run_impl(case, d):
+    with fw.resolution(case):
+        return _run_impl(case, d)
+
+
+def _run_impl(case, d):
     import pandas as pd
     from hta.common.trace import get_cpu_gpu_correlation
     from hta.common import trace_call_stack as new
     from hta.common import call_stack as old
-    ta, paths = fw.load_case(case, d)
+    ta, paths = fw.load_case_res(case, d)
     sym = ta.t.symbol_table.get_sym_table()
     out = {}
     for r in sorted(ta.t.get_ranks()):
         df = ta.t.get_trace(r)
-        rows = fw.dump_frame(df, sym)
+        rows = fw.dump_frame_res(case, df, sym)
         for (pid, tid), evs in threads_of(rows).items():
             ids = [e["idx"] for e in evs]
             res = {"evs": [[e["idx"], e["ts"], e["dur"]] for e in evs]}
